@@ -13,6 +13,7 @@ import (
 	"fmt"
 	"net/http"
 	"os"
+	"runtime/debug"
 	"strings"
 
 	"github.com/smallstep/linkedca"
@@ -28,6 +29,7 @@ import (
 	"verif/harness/fixture"
 )
 
+var e2eIssuer string     // provisioner the tokens of the running case name ("" = the fixture's "jwk")
 var e2eCA *fixture.CA    // key material reused across cases (fixture.Opts.From)
 var e2eSSHCA *fixture.CA // the same for the cases that need SSH signers
 
@@ -40,6 +42,9 @@ func nameOpts(r Rules) *authpolicy.X509NameOptions {
 func (k *Case) runE2E() (out string) {
 	defer func() {
 		if r := recover(); r != nil {
+			if os.Getenv("VERIF_C04_DEBUG") != "" {
+				fmt.Fprintf(os.Stderr, "panic: %v\n%s\n", r, debug.Stack())
+			}
 			out = "crash"
 		}
 	}()
@@ -74,7 +79,7 @@ func (k *Case) runE2E() (out string) {
 // signX509On requests the names of the case from ca through token → Authorize → Sign.
 func (k *Case) signX509On(ca *fixture.CA) string {
 	sans := append(append(append(append([]string{}, k.DNS...), k.IPs...), k.Emails...), k.URIs...)
-	tok, err := ca.Token(fixture.TokenOpts{Subject: k.CN, SANs: sans})
+	tok, err := ca.Token(fixture.TokenOpts{Subject: k.CN, SANs: sans, Issuer: e2eIssuer})
 	if err != nil {
 		return ""
 	}
@@ -172,7 +177,35 @@ func (k *Case) runE2EAdmin() string {
 	if err != nil || len(admins) == 0 {
 		return ""
 	}
-	if strings.HasPrefix(k.E2E, "adminprov") {
+	e2eIssuer = ""
+	defer func() { e2eIssuer = "" }()
+	if strings.HasPrefix(k.E2E, "admincreate") {
+		// a provisioner created with the policy inline (POST /admin/provisioners carries it): a second JWK provisioner
+		// on the fixture's key, the tokens name it
+		pub, err := ca.JWK.Public().MarshalJSON()
+		if err != nil {
+			return ""
+		}
+		lp := &linkedca.Provisioner{Type: linkedca.Provisioner_JWK, Name: "jwk2", Policy: k.linkedPolicy(),
+			Claims:  &linkedca.Claims{Ssh: &linkedca.SSHClaims{Enabled: true}},
+			Details: &linkedca.ProvisionerDetails{Data: &linkedca.ProvisionerDetails_JWK{JWK: &linkedca.JWKProvisioner{PublicKey: pub}}}}
+		if err := ca.Auth.StoreProvisioner(ctx, lp); err != nil {
+			var pe *authority.PolicyError
+			switch {
+			case errors.As(err, &pe) && pe.Typ == authority.ConfigurationFailure:
+				return "badrule"
+			case errors.As(err, &pe):
+				return ""
+			case strings.Contains(err.Error(), "cannot parse") || strings.Contains(err.Error(), "error initializing") || strings.Contains(err.Error(), "error validating"):
+				return "badrule"
+			}
+			if os.Getenv("VERIF_C04_DEBUG") != "" {
+				fmt.Fprintln(os.Stderr, "other(admincreate):", err)
+			}
+			return ""
+		}
+		e2eIssuer = "jwk2"
+	} else if strings.HasPrefix(k.E2E, "adminprov") {
 		// the same through the provisioner's own policy: UpdateProvisioner with the linkedca record carrying it
 		var lp *linkedca.Provisioner
 		if provs, err := ca.Auth.GetAdminDatabase().GetProvisioners(ctx); err == nil {
@@ -243,6 +276,13 @@ func (k *Case) runE2ESSH() string {
 	o := fixture.Opts{NoDB: true, From: e2eSSHCA, SSH: true, JWKClaims: &provisioner.Claims{EnableSSHCA: &yes}}
 	host := &authpolicy.SSHHostCertificateOptions{AllowedNames: sshNameOpts(k.P), DeniedNames: sshNameOpts(k.X)}
 	user := &authpolicy.SSHUserCertificateOptions{AllowedNames: sshNameOpts(k.P), DeniedNames: sshNameOpts(k.X)}
+	// one-sided policies: only the section of the certificate's type, or only the other one (then every
+	// certificate of this type is refused, whatever it names)
+	if (k.Side == "own") == (k.Kind == "sshhost") && k.Side != "" {
+		user = nil
+	} else if k.Side != "" {
+		host = nil
+	}
 	switch k.E2E {
 	case "authority":
 		o.Config = func(cfg *config.Config) {
@@ -268,7 +308,7 @@ func (k *Case) signSSHOn(ca *fixture.CA) string {
 	if k.Kind == "sshhost" {
 		typ = "host"
 	}
-	tok, err := ca.Token(fixture.TokenOpts{Subject: "key-id", Audience: fixture.Audience("/1.0/ssh/sign"), NoSANs: true,
+	tok, err := ca.Token(fixture.TokenOpts{Subject: "key-id", Audience: fixture.Audience("/1.0/ssh/sign"), NoSANs: true, Issuer: e2eIssuer,
 		Extra: map[string]any{"step": map[string]any{"ssh": map[string]any{"certType": typ, "keyID": "key-id", "principals": k.SANs}}}})
 	if err != nil {
 		return ""
@@ -369,8 +409,12 @@ func genE2ESSH(r *c.Rng) *Case {
 		}
 	}
 	if r.Chance(1, 4) {
+		k.Side = c.Pick(r, []string{"own", "other"})
+		return k
+	}
+	if r.Chance(1, 4) {
 		// the stored (linkedca) form has dns, ips and principals for host and e-mails and principals for user policies
-		k.E2E = c.Pick(r, []string{"admin", "admin-restart", "adminprov", "adminprov-restart"})
+		k.E2E = c.Pick(r, []string{"admin", "admin-restart", "adminprov", "adminprov-restart", "admincreate", "admincreate-restart"})
 		if k.Kind == "sshhost" {
 			k.P.Email, k.X.Email = nil, nil
 		} else {
@@ -427,7 +471,7 @@ func genE2E(r *c.Rng) *Case {
 	}
 	if r.Chance(1, 4) {
 		// through the administrator's path; the policy must let the administrator ("step") in, or it is refused
-		k.E2E = c.Pick(r, []string{"admin", "admin-restart", "adminprov", "adminprov-restart"})
+		k.E2E = c.Pick(r, []string{"admin", "admin-restart", "adminprov", "adminprov-restart", "admincreate", "admincreate-restart"})
 		if k.P.nonEmpty() {
 			k.P.DNS = append(k.P.DNS, "step")
 		}
